@@ -7,6 +7,7 @@ CONSTANTS
   NoShadow = FALSE
   NoPreCheck = TRUE
   XParU = {}
+  ModEnds = "off"
   ShallowSub = FALSE
   IgnoreNs = FALSE
   ModSharedPath = FALSE
